@@ -273,6 +273,15 @@ class RustFile:
             if len(cands) > 1:
                 raise ExtractError('%s: fn %s is ambiguous (%d candidates)' % (self.path, path, len(cands)))
             return cands[0][1]
+        if kind == 'impl':
+            mm = re.match(r'<(\w+)(?: for |_for_)(\w+)>$', parts[-1])
+            if mm:
+                cands = [it for it in scope if it.kind == 'impl' and it.name == mm.group(2) and it.trait_name == mm.group(1)]
+            else:
+                cands = [it for it in scope if it.kind == 'impl' and it.name == parts[-1] and it.trait_name is None]
+            if len(cands) != 1:
+                raise ExtractError('%s: impl %s: %d candidates' % (self.path, path, len(cands)))
+            return cands[0]
         if len(parts) != 1:
             raise ExtractError('%s: cannot resolve %s' % (self.path, path))
         cands = [it for it in scope if it.kind == kind and it.name == parts[0]
